@@ -204,7 +204,7 @@ def run(ctx):
         shape(ctx, case["lib"], case["target"])
         check_case(ctx, case, drv, "main")
     # competing stream (after the main stream, which keeps its random numbers): modified declarations
-    n_comp = 70 if quick else 1200
+    n_comp = 60 if quick else 1200
     done_comp = tries = 0
     while done_comp < n_comp and tries < 20 * n_comp:
         tries += 1
